@@ -14,6 +14,9 @@ func (e *Executor) areTaskRequiredVarsSet(t *ast.Task) error {
 
 	var missingVars []errors.MissingVar
 	for _, requiredVar := range t.Requires.Vars {
+		if requiredVar == nil {
+			continue
+		}
 		_, ok := t.Vars.Get(requiredVar.Name)
 		if !ok {
 			missingVars = append(missingVars, errors.MissingVar{
@@ -40,6 +43,9 @@ func (e *Executor) areTaskRequiredVarsAllowedValuesSet(t *ast.Task) error {
 
 	var notAllowedValuesVars []errors.NotAllowedVar
 	for _, requiredVar := range t.Requires.Vars {
+		if requiredVar == nil {
+			continue
+		}
 		varValue, _ := t.Vars.Get(requiredVar.Name)
 
 		value, isString := varValue.Value.(string)
